@@ -394,8 +394,9 @@ def search(R, ctx, deep, hints):
                 fails.append(dict(what='batch index map differs from single-index map', input=[I, q], got=[A, Bk]))
         except Exception as e:
             fails.append(dict(what='batch index map raised: ' + repr(e)[:200], input=[I, q]))
-    # rejection
-    for n in [3, 6, 12, 100]:
+    # rejection (also far beyond the range where a floating-point log2 can tell a power of two from its neighbours)
+    for n in [3, 6, 12, 100, 2 ** 20 + 1, 2 ** 31 - 1, 3 * 2 ** 40, 2 ** 49 + 1, 2 ** 50 + 1, 2 ** 50 - 1, 2 ** 53 + 2, 2 ** 60 + 3,
+              2 ** 62 - 1]:
         n_eval += 1
         try:
             tn.ind_tt_to_qtt([1], n)
@@ -449,6 +450,18 @@ def search(R, ctx, deep, hints):
                      input=dict(kind='conv', q=q, e=e, cap=cap, Y=[np.asarray(G).tolist() for G in Y]))
         if f:
             fails.append(f)
+    # every power of two up to 2^62 is accepted by the index maps and round-trips
+    for k in range(1, 63):
+        n_eval += 1
+        try:
+            i0 = [2 ** k - 1, 0, 2 ** (k - 1)]
+            b = np.asarray(tn.ind_tt_to_qtt(i0, 2 ** k)).tolist()
+            if len(b) != 3 * k or np.asarray(tn.ind_qtt_to_tt(b, k)).tolist() != i0:
+                fails.append(dict(what='index maps do not round-trip for a large power-of-two mode size', input=[i0, k]))
+                break
+        except Exception as e:
+            fails.append(dict(what='ind_tt_to_qtt rejected a power-of-two mode size: ' + repr(e)[:100], input=[[1], k]))
+            break
     for nbad in [3, 6, 12]:
         n_eval += 1
         try:
